@@ -171,10 +171,10 @@ def applyElems (es : List (Elem α)) (sp : List (Chan α)) : List (Chan α) :=
 def demux (keep : Int → Bool) (sp : List (Int × Chan α)) : List (Int × Chan α) :=
   sp.filter (fun kc => keep kc.1)
 
-/-- insertion into a key-sorted list (after equal keys: stable) -/
+/-- insertion into a key-sorted list (before equal keys; with `sortK` below: a stable sort) -/
 def insertK (x : Int × Chan α) : List (Int × Chan α) → List (Int × Chan α)
   | [] => [x]
-  | y :: ys => if x.1 < y.1 then x :: y :: ys else y :: insertK x ys
+  | y :: ys => if x.1 ≤ y.1 then x :: y :: ys else y :: insertK x ys
 
 /-- `argsort(frequency)` of the constructor (stable insertion sort; accepted spectra have distinct
 frequencies so stability is immaterial) -/
